@@ -1,13 +1,13 @@
 SPECIFICATION Spec
 CONSTANTS
-  NV = 2
-  StabV = {2}
+  NV = 3
+  StabV = {}
   HasHf = FALSE
-  Absent0 = {}
-  Admin = FALSE
+  Absent0 <- AbsMid
+  Admin = TRUE
   Cmds = {}
   Rewrites = FALSE
-  NP = 2
+  NP = 1
   UseQueue = TRUE
   SkipQueue = FALSE
   Faults = FALSE
@@ -19,7 +19,7 @@ CONSTANTS
   AutoApprove = TRUE
   Opts = {}
   ReportOnce = TRUE
-  MaxLevel = 11
+  MaxLevel = 12
   EmitJson = FALSE
   PruneOnlyOwned = FALSE
   PushOnlyChanged = FALSE
@@ -37,4 +37,5 @@ PROPERTY C08_FF
 PROPERTY C08_Foreign
 PROPERTY C12_Held
 PROPERTY C20_EntryFate
+PROPERTY C20_DestDel
 CHECK_DEADLOCK FALSE
